@@ -15,6 +15,18 @@
 # more or less — and every value is asked the paths of all the others too. The judge treats each value on its
 # own (the spec has no history), so anything that the conversion of one value leaves behind for the next one
 # shows as a violation on that value, and the replay holds the whole history.
+#
+# INDICES. A bracket index denotes an integer - any integer - and can be written in many ways. An index step is
+# {"i": z} (the literal z, negative ones included) or {"i": z, "w": {...}} where "w" says how it is written:
+#   {"num": steps, "add": k}   a number of the page data, plus/minus a constant:  xs[d.pos]   xs[n - 2]
+#   {"len": steps, "add": k}   the length of a list of the page data:            xs[xs.length - 1]   xs[ys.length]
+#   {"lit": "paren"|"sub"|"float"}   the literal z spelled (z), 0 - 1 / 3 - 1, -1.0
+# The harness builds the source text from "w"; the integer the expression denotes is computed HERE from the data
+# tree (idx_value: the Go int at that path, Go's len() of that slice) and is all the judge sees: `Idx computed z`.
+# About 20% of the page data is built around a list (gen_indexed_data: a list of any element type - nil, empty or
+# with 1-4 elements - next to numbers chosen around its bounds, in a struct, a map or the family type C11Item, held
+# in any of the positions of WRAPPERS), and wherever page data has a list or a string, a good share of the paths put
+# an index on it on either side of its range (gen_index_path): below zero, in range, at / far beyond the length.
 import copy
 import json
 from common import *
@@ -273,12 +285,40 @@ def coq_gv(n):
     return b"(GStruct " + cq_list(fs) + b" " + ms(vm) + b" " + ms(pm) + b")"
 
 
-def coq_step(s):
+def idx_computed(st):
+    """the index reaches the runtime as a computed number (a pugjs Number), not as a literal"""
+    w = st.get("w")
+    return bool(w) and (bool(w.get("num")) or bool(w.get("len")) or w.get("lit") == "sub")
+
+
+def idx_value(d, st):
+    """the integer an index step denotes for the page data d (None: its expression reaches no number / list there)"""
+    w = st.get("w")
+    if not w or not (w.get("num") or w.get("len")):
+        return st["i"]
+    end, _ = py_walk(d, w.get("num") or w["len"])
+    n, _ = strip(end) if end is not None else (None, False)
+    if n is None:
+        return None
+    if w.get("num"):
+        if n["k"] not in ("int", "float") or abs(n["v"]) > 2**50:
+            return None
+        return n["v"] + w.get("add", 0)
+    if n["k"] != "slice":
+        return None
+    return len(n["v"] or []) + w.get("add", 0)
+
+
+def coq_step(s, d=None):
     if "f" in s:
         return b"(Field " + cq_bytes(unhx(s["f"])) + b")"
     if "k" in s:
         return b"(Key " + cq_bytes(unhx(s["k"])) + b")"
-    return b"(Idx " + cq_nat(s["i"]) + b")"
+    return b"(Idx " + cq_bool(idx_computed(s)) + b" " + cq_Z(idx_value(d, s)) + b")"
+
+
+def steps_resolved(d, steps):
+    return all("i" not in s or idx_value(d, s) is not None for s in steps)
 
 
 # ------------------------------------------------------------------ generation of values
@@ -455,6 +495,8 @@ def gen_value(rng, t, depth):
 
 def gen_data(rng, tier):
     depth = rng.choice([1, 2, 2, 3, 3, 4] if tier == "quick" else [1, 2, 3, 3, 4, 4, 5])
+    if rng.random() < INDEXED_SHARE:
+        return gen_indexed_data(rng, depth)
     r = rng.random()
     if r < 0.40:      # the usual page data: map[string]interface{}
         keys = with_case_pair(rng, rng.sample([k for k in MAP_KEYS if ident_ok(k)], rng.randint(1, 5)))
@@ -523,11 +565,10 @@ def is_leafish(n):
     return s is None or s["k"] in ("str", "int", "float", "bool", "nil", "chan")
 
 
-def random_walk(rng, d, maxlen):
+def random_walk(rng, d, maxlen, first=True):
     """a path that follows the tree; returns (steps, tags, end node)"""
     steps, tags = [], []
     cur = d
-    first = True
     while len(steps) < maxlen:
         ch = children(cur)
         if first:
@@ -569,10 +610,10 @@ def break_path(rng, d, steps, tags):
         elif "k" in st:
             steps[i] = {"k": hx(rng.choice([b"missing", b"", b"zz", b"Name", b"<int Value>", b"k9"]))}
         else:
-            steps[i] = {"i": st["i"] + rng.choice([1, 2, 5, 40])}
+            steps[i] = {"i": rng.choice([st["i"] + 1, st["i"] + 2, st["i"] + 5, st["i"] + 40, -1, -2, -1 - st["i"], -40])}
         return steps[:i + 1] + (steps[i + 1:] if rng.random() < 0.5 else []), "missing"
     if r < 0.24:          # out of range
-        steps = steps[:i + 1] + [{"i": rng.choice([0, 1, 3, 17])}]
+        steps = steps[:i + 1] + [{"i": rng.choice([0, 1, 3, 17, -1, -3])}]
         return steps, "extra_idx"
     if r < 0.44:          # wrong case / folding spellings
         st = steps[i]
@@ -587,12 +628,12 @@ def break_path(rng, d, steps, tags):
             return steps, "wrong_case_key"
         return steps + [{"f": hx(rng.choice(ABSENT_NAMES))}], "extra_field"
     if r < 0.56:          # one more step after the end (field of a leaf, of nil, ...)
-        extra = rng.choice([{"f": hx(rng.choice(ABSENT_NAMES))}, {"k": hx(rng.choice([b"k", b"name"]))}, {"i": rng.choice([0, 2])}])
+        extra = rng.choice([{"f": hx(rng.choice(ABSENT_NAMES))}, {"k": hx(rng.choice([b"k", b"name"]))}, {"i": rng.choice([0, 2, -1])}])
         return steps + [extra], "beyond_end"
     if r < 0.66:          # unexported
         return steps[:i + 1] + [{"f": hx(rng.choice([b"hidden", b"secret", b"Hidden"]))}] + ([{"f": hx(b"x")}] if rng.random() < 0.3 else []), "unexported"
     if r < 0.76:          # undefined top-level name with a tail
-        tail = rng.choice([[], [{"f": hx(b"x")}], [{"i": 0}], [{"k": hx(b"k")}], [{"f": hx(b"a")}, {"f": hx(b"b")}], [{"f": hx(b"a")}, {"i": 1}, {"f": hx(b"c")}]])
+        tail = rng.choice([[], [{"f": hx(b"x")}], [{"i": 0}], [{"i": -1}], [{"k": hx(b"k")}], [{"f": hx(b"a")}, {"f": hx(b"b")}], [{"f": hx(b"a")}, {"i": 1}, {"f": hx(b"c")}]])
         return [{"f": hx(rng.choice([b"missing", b"undefinedName", b"zz", b"Nope"]))}] + tail, "undefined_top"
     if r < 0.84:          # bracket instead of dot and the other way round
         st = steps[i]
@@ -628,6 +669,8 @@ def py_walk(d, steps):
     """(end node or None, tag of the first step)"""
     cur, first_tag = d, None
     for i, st in enumerate(steps):
+        if "i" in st:                    # an index counts by the integer it denotes, however it is written
+            st = {"i": idx_value(d, st)}
         cur, tag = py_step(cur, st)
         if i == 0:
             first_tag = tag
@@ -654,9 +697,18 @@ def gen_paths(rng, d, tier):
     n = rng.randint(3, 8) if tier == "quick" else rng.randint(4, 10)
     out, kinds = [], []
     seen = set()
+    sites = index_sites(d)
     for _ in range(n * 4):
         if len(out) >= n:
             break
+        if sites[0] and rng.random() < INDEX_PATH_SHARE:
+            ip = gen_index_path(rng, d, sites)
+            if ip and (json.dumps(ip[0]), False) not in seen:
+                raw = rng.random() < 0.2
+                seen.add((json.dumps(ip[0]), raw))
+                out.append({"steps": ip[0], "raw": raw})
+                kinds.append(ip[1])
+            continue
         steps, tags, end = random_walk(rng, d, rng.choice([2, 3, 4, 6, 8]))
         kind = "good"
         raw = rng.random() < 0.3
@@ -677,6 +729,171 @@ def gen_paths(rng, d, tier):
         out.append({"steps": [{"f": hx(b"missing")}], "raw": False})
         kinds.append("undefined_top")
     return out, kinds
+
+
+# ------------------------------------------------------------------ lists, numbers and the indices between them
+
+INDEXED_SHARE = 0.20      # share of the page data that is built around a list and numbers near its bounds
+INDEX_PATH_SHARE = 0.45   # where page data has a list or a string: share of its paths that index it
+LIST_ELEMS = ["str", "str", "int", "Item", {"ptr": "Item"}, {"ptr": "Item"}, "iface", "Labeler", {"ptr": "Base"}, "float64", "bool",
+              {"struct": [["Name", "str"], ["Price", "int"]]}, {"ptr": {"struct": [["Name", "str"], ["Kids", {"slice": "str"}]]}},
+              {"slice": "int"}, {"map": "str"}, "uint8"]
+FAR = [2**31 - 1, 2**31, 2**32, 10**6, 4 * 10**12, 2**40, 2**62]
+
+
+def gen_list(rng, et, depth):
+    r = rng.random()
+    if r < 0.22:
+        v = None
+    elif r < 0.42:
+        v = []
+    else:
+        v = [gen_value(rng, et, depth - 1) for _ in range(rng.choice([1, 1, 2, 2, 3, 4]))]
+    return {"k": "slice", "et": et, "v": v}
+
+
+def bound_number(rng, L):
+    """a number as page data carries it next to a list of length L: a position, an offset, a count"""
+    return rng.choice([-1, -1, -2, -3, -L - 1, -L, 0, 0, L - 1, L - 1, L, L, L + 1, L + 4, 1, 2, -17, 250, 10**6, -10**6, 2**31, -2**31])
+
+
+def gen_indexed_data(rng, depth):
+    """page data around a list: the list (nil / empty / 1-4 elements of any type), one or two numbers near its
+    bounds, a string; as fields of a struct, entries of a map or the family type; held in any position of WRAPPERS"""
+    depth = min(depth, 3)
+    r = rng.random()
+    if r < 0.2:            # C11Item: Tags next to Count (and TagList(), Total())
+        tags = gen_list(rng, "str", 1)
+        f = {"Name": S(rng.choice(STRINGS)), "Tags": tags, "Count": I(bound_number(rng, len(tags["v"] or [])))}
+        if rng.random() < 0.4:
+            f["Attrs"] = {"k": "map", "et": "int", "v": [(rng.choice([b"pos", b"n", b"k1"]), I(bound_number(rng, len(tags["v"] or []))))]}
+        holder = {"k": "Item", "f": f}
+    else:
+        lst = gen_list(rng, rng.choice(LIST_ELEMS), depth)
+        L = len(lst["v"] or [])
+        names = rng.sample([n for n in FIELD_NAMES if n not in ("Valid", "Id", "Url")], 5)
+        def num():
+            if rng.random() < 0.15:
+                return {"k": "float", "v": rng.choice([-1, 0, L - 1, L, -2])}
+            kind, v = rng.choice(["int", "int", "int", "int64", "int32", "int8"]), bound_number(rng, L)
+            return I(v if INT_RANGE[kind][0] <= v <= INT_RANGE[kind][1] else L - 1, kind)
+        fields = [(names[0], lst), (names[1], num())]
+        if rng.random() < 0.6:
+            fields.append((names[2], num()))
+        if rng.random() < 0.6:
+            fields.append((names[3], S(rng.choice(STRINGS))))
+        if rng.random() < 0.35:
+            fields.append((names[4], gen_list(rng, rng.choice(LIST_ELEMS), depth - 1)))
+        rng.shuffle(fields)
+        if r < 0.65:
+            holder = {"k": "dstruct", "f": fields}
+        else:
+            holder = {"k": "map", "et": "iface",
+                      "v": [(lower_first(nm.encode()), {"k": "iface", "named": False, "v": v}) for nm, v in fields]}
+    w = rng.choice(WRAPPERS)
+    if w == "top" and holder["k"] not in ("dstruct", "map"):
+        w = "ptrkey"
+    extra = [(kk, gen_value(rng, "iface", 1)) for kk in rng.sample([b"title", b"count", b"meta", b"x"], rng.choice([0, 0, 1, 2]))]
+    return wrap(rng, w, holder, extra)
+
+
+def positions(d, limit=150, maxdepth=6):
+    """[(steps, node)]: what the plain good paths of d reach, breadth first (a method of the page data itself is
+    F-C11-b and left out; a map entry once, as .name when it can be written so)"""
+    out, frontier = [], [([], d)]
+    for _ in range(maxdepth):
+        nxt = []
+        for steps, n in frontier:
+            for st, child, tag in children(n):
+                if not steps and ("f" not in st or tag == "method"):
+                    continue
+                if steps and tag == "key" and ident_ok(unhx(st["k"])):
+                    continue
+                if len(out) >= limit:
+                    return out
+                out.append((steps + [st], child))
+                nxt.append((steps + [st], child))
+        frontier = nxt
+    return out
+
+
+def index_sites(d):
+    """(targets, numbers, lists) among the positions of d: what can be indexed (lists incl. nil ones, strings), the
+    numbers and the lists an index can be computed from"""
+    targets, numbers, lists = [], [], []
+    for steps, n in positions(d):
+        sn, _ = strip(n)
+        if sn is None:
+            continue
+        if sn["k"] == "slice":
+            targets.append((steps, sn))
+            lists.append((steps, sn))
+        elif sn["k"] == "str":
+            targets.append((steps, sn))
+        elif sn["k"] in ("int", "float") and abs(sn["v"]) <= 2**40:
+            numbers.append((steps, sn))
+    return targets, numbers, lists
+
+
+def gen_index_path(rng, d, sites):
+    """a path with a bracket index on a list / string of d, on either side of its range, written as a literal, as a
+    number of the page data or as a length; returns (steps, kind) or None"""
+    targets, numbers, lists = sites
+    lists_t = [t for t in targets if t[1]["k"] == "slice"]
+    if not lists_t and rng.random() < 0.7:        # only strings to index: less often
+        return None
+    tsteps, tn = rng.choice(lists_t) if lists_t and rng.random() < 0.85 else rng.choice(targets)
+    elems = (tn["v"] or []) if tn["k"] == "slice" else []
+    L = len(elems) if tn["k"] == "slice" else len(tn["v"])
+    tkind = "string" if tn["k"] == "str" else "nil_list" if tn["v"] is None else "empty_list" if L == 0 else "list"
+    r = rng.random()
+    st = None
+    if r < 0.30 and numbers:                      # xs[d.pos]  xs[n - 2]
+        nsteps, nn = rng.choice(numbers)
+        add = rng.choice([0, 0, 0, 0, -1, -2, 1, 2, -nn["v"] - 1 if abs(nn["v"]) < 50 else 0])
+        st, form = {"i": nn["v"] + add, "w": {"num": nsteps, "add": add}}, "number_of_data"
+    elif r < 0.58 and lists:                      # xs[xs.length - 1]  xs[ys.length]
+        same = [l for l in lists if l[0] == tsteps]
+        lsteps, ln = rng.choice(same) if same and rng.random() < 0.75 else rng.choice(lists)
+        M = len(ln["v"] or [])
+        add = rng.choice([-1, -1, -1, -1, 0, -2, -3, 1, -M - 1])
+        st, form = {"i": M + add, "w": {"len": lsteps, "add": add}}, "length"
+    if st is None:
+        side = rng.choice(["below", "below", "beyond", "in"])
+        if side == "in" and L == 0:
+            side = rng.choice(["below", "beyond"])
+        if side == "below":
+            v = min(-1, rng.choice([-1, -1, -1, -2, -L, -L - 1, -17, -rng.choice(FAR)]))
+        elif side == "beyond":
+            v = rng.choice([L, L, L + 1, L + 5, rng.choice(FAR)])
+        else:
+            v = rng.randrange(L)
+        st, form = {"i": v}, "literal"
+        if abs(v) < 1000 and rng.random() < 0.3:
+            lit = rng.choice(["paren", "sub", "float"])
+            st, form = {"i": v, "w": {"lit": lit}}, "literal_" + lit
+    v = st["i"]
+    side = "below_zero" if v < 0 else "in_range" if v < L else "beyond_length"
+    steps = copy.deepcopy(tsteps) + [st]
+    if side == "in_range" and tn["k"] == "slice":
+        more, _, end = random_walk(rng, elems[v], rng.choice([1, 2, 3, 4]), first=False)
+        steps += more
+        if not is_leafish(end) and rng.random() < 0.9:
+            return None
+    elif side == "in_range":
+        if rng.random() < 0.7:                    # a byte of a string: outside the property's domain, keep it rare
+            return None
+    else:                                         # nothing there: whatever follows prints nothing either
+        names = [c[0] for e in elems[:1] for c in children(e)] or [{"f": hx(lower_first(nm.encode()))} for nm in FIELD_NAMES[:6]]
+        names = [c for c in names if "f" in c and unhx(c["f"]) not in ARRAY_STRING_MEMBERS] or [{"f": hx(b"name")}]
+        tail = rng.choice([[], [], [rng.choice(names)], [rng.choice(names), {"f": hx(rng.choice(ABSENT_NAMES))}], [{"i": 0}],
+                           [{"i": -1}], [{"k": hx(rng.choice(MAP_KEYS))}], [rng.choice(names), {"i": rng.choice([0, -2])}]])
+        steps += copy.deepcopy(tail)
+    return steps, "index:%s:%s:%s" % (side, form, tkind)
+
+
+ARRAY_STRING_MEMBERS = [b"length", b"indexOf", b"join", b"push", b"pop", b"shift", b"unshift", b"splice", b"slice", b"sort",
+                        b"charAt", b"toUpperCase", b"toLowerCase", b"split", b"replace"]
 
 
 # ------------------------------------------------------------------ histories: look-alike values one after the other
@@ -796,6 +1013,12 @@ def gen_history(rng, tier):
             if keep:
                 paths.append({"steps": steps, "raw": raw})
                 kinds.append(kd if py_walk(d, steps)[0] is not None else "of_another_value")
+        sites = index_sites(d)
+        for _ in range(rng.choice([0, 1, 2]) if sites[0] else 0):      # indices on this value's own lists
+            ip = gen_index_path(rng, d, sites)
+            if ip and json.dumps(ip[0]) not in [json.dumps(p["steps"]) for p in paths]:
+                paths.append({"steps": ip[0], "raw": rng.random() < 0.2})
+                kinds.append(ip[1])
         if rng.random() < 0.5:
             steps, tags, end = random_walk(rng, d, 4)
             steps, kd = break_path(rng, d, steps, tags)
@@ -844,7 +1067,16 @@ class C11(Prop):
             "more or less, or unrelated page data; held at the top level, under a map key, behind a pointer, in a slice, "
             "a typed map, a struct field or an interface field; the first type may come again at the end; every value is "
             "asked the paths of the other values too. Each value of a history is judged on its own against the spec "
-            "(which knows no history); the worst verdict is the case's. Non-trivial = a single value with at least one "
+            "(which knows no history); the worst verdict is the case's. INDICES: a bracket index denotes any integer and "
+            "is written as a literal (2, -1, (-1), 0 - 1, -1.0), as a number taken from the page data (xs[d.pos], "
+            "xs[n - 2]) or as a length (xs[xs.length - 1], xs[ys.length]); 20% of the page data is built around a list "
+            "(nil, empty or 1-4 elements of any element type) with numbers chosen around its bounds (-1, -len-1, 0, len-1, "
+            "len, far out), as fields of a struct, entries of a map or C11Item's Tags/Count, held at the top level, under "
+            "a key, behind a pointer, in a slice, a typed map, a field or an interface; wherever page data holds a list "
+            "or a string, 45% of its paths put an index on it: below zero (the literal -1 .. -2^62, a negative number of "
+            "the data, length - 1 of an empty or nil list), in range (and on through the element), at the length and "
+            "far beyond it (.. 2^62), with and without further steps behind it (the coverage reports side x way of "
+            "writing x kind of target). Non-trivial = a single value with at least one "
             "path of two or more steps that prints a non-empty leaf and at least one path that reaches nothing, or a "
             "history of at least two different types in which one and the same path prints different things for two "
             "values; distinct by SHA-1 of the case")
@@ -853,6 +1085,10 @@ class C11(Prop):
         "(otto) and the template compiler for `= a.b[0]['k'].c`: covered by the correspondence, not by a theorem",
         "the Python description of the hand-written family (method sets, method results) that is emitted as the gv term; "
         "the field lists of the look-alike types (TWINS) are compared with reflect by the harness on every use",
+        "the integer a computed index denotes (xs[d.pos], xs[xs.length - 1], n - 2) is computed by the generator from "
+        "the data tree (the Go int at that path, Go's len of that slice, plus the constant) and handed to the judge as "
+        "`Idx true z`; that the template's own arithmetic (Number member, Array.length, __op__sub/__op__add) yields "
+        "that integer is covered by the correspondence (in-range computed indices must print the element), not by a theorem",
         "process isolation by the harness: every case runs in a freshly started process (os/exec of the harness binary), "
         "so a verdict depends on the case alone and a replay reproduces it",
     ]
@@ -860,6 +1096,9 @@ class C11(Prop):
         "a Go value is the tree reflect exposes: an embedded struct is a field named after its type plus the promoted "
         "methods; Go's promoted-field shorthand (e.note for e.C11Base.Note) is not a path of that tree (observed: prints nothing)",
         "names are ASCII; the first name of a path is not a registered template function, `global` or `range`",
+        "an index is an integer within int64 (explored: -2^62 .. 2^62; numbers taken from the data within 2^50, where a "
+        "pugjs Number - a float64 - is exact); an index in range on a string (a byte) is outside the domain, an index "
+        "out of range on a string is inside (prints nothing)",
         "methods and func values are pure and do not panic; page data is not mutated during a render",
         "production wiring: a logger is configured and debug mode is off (panicOrError logs instead of panicking)",
         "the model keeps nothing between two conversions (C11_history is the per-render statement mapped over a history); "
@@ -898,7 +1137,10 @@ class C11(Prop):
             for p, o in zip(v["paths"], ob["paths"]):
                 cls = CLASS_CODE.get(o["class"], 2)
                 out = unhx(o.get("out") or "") if cls == 0 else b""
-                ps.append(b"{| po_steps := " + cq_list([coq_step(s) for s in p["steps"]]) + b"; po_raw := " + cq_bool(p["raw"]) +
+                # an index expression that denotes no integer for this value (only after a careless edit of a
+                # corpus file; the generator and the shrinker never produce one): the judge declines (no steps)
+                steps = p["steps"] if steps_resolved(d, p["steps"]) else []
+                ps.append(b"{| po_steps := " + cq_list([coq_step(s, d) for s in steps]) + b"; po_raw := " + cq_bool(p["raw"]) +
                           b"; po_class := " + cq_nat(cls) + b"; po_out := " + cq_bytes(out) + b" |}")
             vs.append(b"{| data := " + coq_gv(d) + b"; paths := " + cq_list(ps) + b" |}")
         return cq_list(vs)
@@ -929,15 +1171,29 @@ class C11(Prop):
         return one(case, obs)
 
     def shrink_value(self, v):
+        # a candidate in which an index expression no longer denotes an integer (its number / list was dropped from
+        # the data) is no candidate
+        for c in self.shrink_value_raw(v):
+            d = from_json(c["data"])
+            if all(steps_resolved(d, p["steps"]) for p in c["paths"]):
+                # the value noted next to a computed index follows the (smaller) data
+                yield {"data": c["data"], "paths": [{"steps": [dict(st, i=idx_value(d, st)) if "i" in st else st for st in p["steps"]],
+                                                     "raw": p["raw"]} for p in c["paths"]]}
+
+    def shrink_value_raw(self, v):
         ps = v["paths"]
         if len(ps) > 1:
             for i in range(len(ps)):
                 yield {"data": v["data"], "paths": [ps[i]]}
             return
-        # one path left: shorten it, then drop parts of the data
+        # one path left: shorten it, write its computed indices as literals, then drop parts of the data
         steps = ps[0]["steps"]
         for i in range(len(steps) - 1, 0, -1):
             yield {"data": v["data"], "paths": [{"steps": steps[:i] + steps[i + 1:], "raw": ps[0]["raw"]}]}
+        d = from_json(v["data"])
+        for i, st in enumerate(steps):
+            if "i" in st and st.get("w") and idx_value(d, st) is not None:
+                yield {"data": v["data"], "paths": [{"steps": steps[:i] + [{"i": idx_value(d, st)}] + steps[i + 1:], "raw": ps[0]["raw"]}]}
         for smaller in shrink_json(v["data"]):
             yield {"data": smaller, "paths": ps}
 
@@ -961,7 +1217,9 @@ class C11(Prop):
     def distribution(self, cases, obss):
         d = {"values": 0, "paths": 0, "raw_paths": 0, "go_error": 0, "go_empty": 0, "go_nonempty": 0, "path_kinds": {},
              "top_kinds": {}, "path_lengths": {}, "histories": 0, "history_kinds": {}, "history_lengths": {},
-             "values_in_histories": 0, "history_paths_of_another_value": 0, "histories_whose_page_data_types_share_a_name": {}}
+             "values_in_histories": 0, "history_paths_of_another_value": 0, "histories_whose_page_data_types_share_a_name": {},
+             "index_paths": 0, "index_side": {}, "index_written_as": {}, "index_on": {}, "index_below_zero_go_empty": 0,
+             "cases_with_an_index_below_zero": 0}
         for c, o in zip(cases, obss):
             vals, vobs = case_values(c), obs_values(o)
             if "seq" in c:
@@ -975,6 +1233,7 @@ class C11(Prop):
                 if len(set(names)) < len({json.dumps(v["data"]["ty"], sort_keys=True) for v in vals}):
                     nm = max(names, key=names.count)      # distinct types, one name
                     d["histories_whose_page_data_types_share_a_name"][nm] = d["histories_whose_page_data_types_share_a_name"].get(nm, 0) + 1
+            d["cases_with_an_index_below_zero"] += any(k.startswith("index:below_zero") for v in vals for k in v.get("kinds") or [])
             for v, ob in zip(vals, vobs):
                 d["values"] += 1
                 t = self.tree_of(v)
@@ -988,7 +1247,14 @@ class C11(Prop):
                     L = str(min(len(p["steps"]), 7))
                     d["path_lengths"][L] = d["path_lengths"].get(L, 0) + 1
                     kinds = v.get("kinds")
-                    if kinds:
+                    if kinds and kinds[i].startswith("index:"):
+                        _, side, form, on = kinds[i].split(":")
+                        d["index_paths"] += 1
+                        for h, x in (("index_side", side), ("index_written_as", form), ("index_on", on)):
+                            d[h][x] = d[h].get(x, 0) + 1
+                        d["index_below_zero_go_empty"] += side == "below_zero" and r["class"] == "ok" and not r.get("out")
+                        d["path_kinds"]["index"] = d["path_kinds"].get("index", 0) + 1
+                    elif kinds:
                         d["path_kinds"][kinds[i]] = d["path_kinds"].get(kinds[i], 0) + 1
                         d["history_paths_of_another_value"] += kinds[i] == "of_another_value"
         return d
